@@ -439,6 +439,9 @@ def _judge_srcclose(case, obs, model):
 
 
 def observe(case):
+    if case.get("family") == "teelist":
+        import props.c01 as c01
+        return {"tee_async": c01._run_tee(case, False), "tee_sync": c01._run_tee(case, True)}
     if case.get("srcclose"):
         return _observe_srcclose(case)
     was_enabled = gc.isenabled()
@@ -512,6 +515,8 @@ def decode_steps(obs):
 
 
 def model_request(case):
+    if case.get("family") == "teelist":
+        return None     # a real list that changes under the children: decided against itertools.tee alone
     if case.get("srcclose"):
         return {"m": "teeclose", "items": list(range(case["len"])), "n": case["n"], "susp": case["susp"], "lock": case["lock"],
                 "closeable": True, "dies": False, "ops": case["ops"], "srcclose": case["srcclose"]}
@@ -528,6 +533,13 @@ def precondition(case):
 
 def judge(case, obs, model):
     issues = []
+    if case.get("family") == "teelist":
+        a, b = obs["tee_async"], obs["tee_sync"]
+        if a.get("list_iters", 0) > 1:
+            issues.append(Issue("oracle", {"iterator_requests": a["list_iters"]}, "source-list-iterated-once-per-child"))
+        if (a["out"], a["ends"]) != (b["out"], b["ends"]):
+            issues.append(Issue("oracle", {"asyncstdlib": a, "itertools": b}, "children-differ-from-itertools-tee-over-a-changing-list"))
+        return issues
     if case.get("srcclose"):
         return _judge_srcclose(case, obs, model)
     ops = all_ops(case)
@@ -645,6 +657,8 @@ def judge(case, obs, model):
 
 
 def features(case, obs):
+    if case.get("family") == "teelist":
+        return ["family=teelist", "n=%d" % case["n"]]
     if case.get("srcclose"):
         return ["family=srcclose:" + case["srcclose"], "srcclose-out=" + obs["out"][0], "n=%d" % case["n"]]
     f = ["n=%d" % case["n"], "len=%d" % case["len"], "lock=%s" % case["lock"], "kind=" + case["kind"],
@@ -670,6 +684,8 @@ def features(case, obs):
 
 
 def nontrivial(case, obs):
+    if case.get("family") == "teelist":
+        return any(obs["tee_async"]["out"])
     if case.get("srcclose"):
         return bool(case["ops"])
     steps = decode_steps(obs)
@@ -809,6 +825,11 @@ def _configs(tier):
 
 def cases(tier, rng):
     quick = tier == "quick"
+    # the source is a real list (also one that changes while the children are at different positions): one shared iterator
+    import props.c01 as c01
+    for c in c01._tee_cases(tier):
+        if c["srcs"][0]["kind"] == "list":
+            yield dict(c, family="teelist")
     del TRUNCATED[:]
     stride_all, stride_one = (150, 3) if quick else (300, 6)
     count = 0
